@@ -68,6 +68,19 @@ def ratHash (n : Int) (d : Nat) : Int :=
     let ab : Int := ((ua * binv % M127 : Nat) : Int)
     i128NumHash (if n < 0 then -ab else ab)
 
+/-- cancel the common factors `M` of numerator and denominator (only a non-reduced `Relaxed` has any) -/
+def stripM : Nat → Int → Nat → Int × Nat
+  | 0, n, d => (n, d)
+  | fuel + 1, n, d =>
+    if n ≠ 0 ∧ d % M127 = 0 ∧ n % (M127 : Int) = 0 then stripM fuel (n / (M127 : Int)) (d / M127)
+    else (n, d)
+
+/-- REQUIRED rational hash: the hash of the value — `ratHash` after cancelling common factors `M`
+    (equal to `ratHash` unless `M` divides both stored parts; see `Props/C14`) -/
+def ratHashCanon (n : Int) (d : Nat) : Int :=
+  let p := stripM (bitLen d) n d
+  ratHash p.1 p.2
+
 /-- num-order `FloatHash::fhash` for f32/f64 followed by `i128::num_hash` -/
 def primFloatHash (t : FloatTy) (bits : Nat) : Int :=
   let mb := t.mantBits
@@ -98,5 +111,11 @@ def numHashFeed : Num → Int
       | .u128 => u128NumHash v.toNat
       | _ => v                       -- `(*self as i128).hash(state)`; usize/isize via u64/i64
   | .pfloat t b => primFloatHash t b
+
+/-- REQUIRED feed: a function of the value for every finite number (theorem `hash_canon_value`) -/
+def numHashFeedCanon : Num → Int
+  | .rbig n d => ratHashCanon n d
+  | .relaxed n d => ratHashCanon n d
+  | x => numHashFeed x
 
 end Dashu.Model.Cross
